@@ -4,7 +4,16 @@ set -e
 cd "$(dirname "$0")"
 export GOFLAGS=-mod=mod GOPROXY=off GOSUMDB=off GOTOOLCHAIN=local
 mkdir -p out evidence
-( cd lean && lake build )
+MODS=$(python3 -c "
+import json,glob
+m=[]
+for p in sorted(glob.glob('conf/C*.json')):
+    m+=json.load(open(p)).get('lean_modules',[])
+print(' '.join(dict.fromkeys(m)))")
+EXES=$(python3 -c "
+import glob,os
+print(' '.join('oracle-'+os.path.basename(p)[:-5].lower() for p in sorted(glob.glob('conf/C*.json'))))")
+( cd lean && lake build $EXES $MODS )
 cp /repo/go.sum harness/go.sum 2>/dev/null || true
 ( cd harness && go build -tags verif -o ../out/bin/drive ./cmd/drive )
 echo setup-ok
